@@ -279,6 +279,9 @@ def specRun (c : RCase) (pairs : List (Key × Nat)) : String :=
 
 /-- returns (model output, spec output) -/
 def run (line : String) : String × String :=
+  -- `C12 P …`: OS key-repeat events inside sequence mode (handle_repeat_actual) - outside the model;
+  -- the runner's model-free oracle judges the real trace
+  if line.startsWith "C12 P " then ("unsupported", "-") else
   match runP parseCase line with
   | .error e => (s!"bad-case {e}", "-")
   | .ok (.q ks qs) => (runQ ks qs, "-")
